@@ -10,10 +10,12 @@ import Deepali.Drv.FD
 import Deepali.Drv.Losses
 import Deepali.Drv.Dispatch
 import Deepali.Drv.ImageOps
+import Deepali.Drv.GridDerive
+import Deepali.Drv.Itk
 namespace Deepali.Drv
 open Deepali.Proto
 
 def allHandlers : List (String × Reader String) :=
-  gridHandlers ++ sampleHandlers ++ flowHandlers ++ affineHandlers ++ bsplineHandlers ++ fdHandlers ++ lossHandlers ++ dispatchHandlers ++ imageOpsHandlers
+  gridHandlers ++ sampleHandlers ++ flowHandlers ++ affineHandlers ++ bsplineHandlers ++ fdHandlers ++ lossHandlers ++ dispatchHandlers ++ imageOpsHandlers ++ gridDeriveHandlers ++ itkHandlers
 
 end Deepali.Drv
